@@ -18,6 +18,99 @@ NOT_DECIDED = ("The bound on event-loop cycles, fairness of call_soon, tasks tha
                "liveness is not decided, only the presence of each necessary link.")
 
 
+def delivery_loop(ctx, rule):
+    """the re-delivery loop of a cancelled scope: (i) every live member keeps it alive, (iv) every eligible member is cancelled,
+    (ii) child scopes are recursed into with the same origin, (iii) the origin re-arms itself or clears its handle"""
+    deliver = ctx.fn("CancelScope._deliver_cancellation", A)
+    rvs = [u(e["R"]) for s, e in ctx.sites(deliver, "return $R") if isinstance(e["R"], ast.Name)]
+    ctx.need(rule, deliver, "`return should_retry`", len(rvs), 1)
+    SR = rvs[0] if rvs else "should_retry"
+    tl =[n for n in own_walk(deliver.node) if isinstance(n, ast.For) and ast.unparse(n.iter) == "self._tasks" and isinstance(n.target, ast.Name)]
+    if ctx.need(rule, deliver, "`for task in self._tasks`", len(tl), 1):
+        t = tl[0].target.id
+        tl_ids = {id(tl[0])}
+        done_f = (F(f"{t}.done()")[0], False)
+        cur = ctx.sites(deliver, "$C = current_task()")
+        # (i) retry scheduled for every live member
+        def step_i(st, e, c):
+            if e == "iter":
+                fb = c.facts_before
+                if done_f in fb and (SR, True) not in fb:
+                    return Bad("a member task that is still running is passed over without `should_retry = True`: if it cannot be cancelled in this cycle the delivery dies down and the task stays blocked")
+            return st
+
+        ctx.paths(rule, deliver, [("iter", [lambda frag, node: node.kind == "for_iter" and id(node.node) in tl_ids])], step_i, 0,
+                  lambda k, s, f: None, instance="(i) every live member keeps the delivery alive")
+        # (iv) an eligible task is cancelled
+        calls = ctx.sites(deliver, f"{t}.cancel($*A)")
+        if ctx.need(rule, deliver, "`task.cancel(...)`", len(calls), 1):
+            ctx.require_at(rule, deliver, calls[0][0], [[f"not {t}.done()", f"not {t}._must_cancel", f"not {t} is current_task()"]],
+                           instance="(iv) only live, not-yet-cancelling, other tasks are cancelled")
+
+            def step_iv(st, e, c):
+                if e == "iter":
+                    fb = c.facts_before
+                    keys = {k: p for k, p in fb}
+                    elig = keys.get(f"{t}.done()") is False and keys.get(f"{t}._must_cancel") is False and keys.get(f"{t} is current_task()") is False \
+                        and (keys.get(f"{t} is self._host_task") is True or keys.get(f"_task_started({t})") is True) \
+                        and any((k.startswith("isinstance(") and k.endswith(", asyncio.Future)") and p is False) or (k.endswith(".done()") and k != f"{t}.done()" and p is False)
+                                for k, p in fb)
+                    if elig:
+                        return Bad("a task that is eligible for cancellation (started, not current, waiter not done) is not cancelled by the delivery loop")
+                    live = keys.get(f"{t}.done()") is False and keys.get(f"{t}._must_cancel") is False and keys.get(f"{t} is current_task()") is False
+                    if live:
+                        reason = keys.get(f"_task_started({t})") is False or any(
+                            k.endswith(".done()") and k != f"{t}.done()" and p is True for k, p in fb)
+                        if not reason:
+                            return Bad("a live member task (not done, not already cancelling, not the current task) is left un-cancelled although "
+                                       "neither `not _task_started(task)` nor `waiter already done` was established: started non-host members are never cancelled")
+                return st
+
+            ctx.paths(rule, deliver, [("iter", [lambda frag, node: node.kind == "for_iter" and id(node.node) in tl_ids])], step_iv, 0,
+                      lambda k, s, f: None, instance="(iv) every eligible member is cancelled")
+    # (ii) recursion result is OR-ed in, the recursive call is evaluated first
+    rec = [(s, e) for s, e in ctx.sites(deliver, "$S._deliver_cancellation($O)") if u(e["S"]) != "self"]
+    if ctx.need(rule, deliver, "recursive delivery into child scopes", len(rec), 1):
+        call, env = rec[0]
+        st = stmt_of(call)
+        s_ = u(env["S"])
+        ok = any(P(p).match(st) is not None for p in (f"{SR} = {s_}._deliver_cancellation($O) or {SR}",
+                                                      f"{SR} |= {s_}._deliver_cancellation($O)"))
+        if not ok and isinstance(st, ast.If):
+            ok = P(f"{s_}._deliver_cancellation($O)").match(st.test) is not None and any(P(f"{SR} = True").match(b) is not None for b in st.body)
+        ctx.ob(rule, deliver, "(ii) a child scope that needs a retry keeps the origin's delivery alive (call evaluated before the OR)", ok,
+               detail="" if ok else f"`{norm(st)}`: the recursive result is not OR-ed into should_retry with the call evaluated first "
+               "(`should_retry or scope._deliver...` would skip child scopes once any member needs a retry)", node=st, by=("call or should_retry",))
+        oo = u(env["O"])
+        ctx.ob(rule, deliver, "(ii) the recursion passes the same origin", oo == "origin", detail=f"recursive call passes `{oo}`", node=st, by=("origin",))
+    # (iii) re-arm with the same bound method and origin
+    arm = ctx.sites(deliver, "self._cancel_handle = $L.call_soon(self._deliver_cancellation, origin)")
+    clr = ctx.sites(deliver, "self._cancel_handle = None")
+    if ctx.need(rule, deliver, "(iii) re-arm `self._cancel_handle = loop.call_soon(self._deliver_cancellation, origin)`", len(arm), 1):
+        ctx.require_at(rule, deliver, arm[0][0], [["origin is self", SR]], instance="(iii) re-armed iff something is left to retry, by the origin only")
+    if ctx.need(rule, deliver, "(iii) `self._cancel_handle = None` when nothing is left", len(clr), 1):
+        ctx.require_at(rule, deliver, clr[0][0], [["origin is self", f"not {SR}"]], instance="(iii) handle cleared only when nothing is left to retry")
+
+    def step_iii(st, e, c):
+        if c.is_exc:
+            return st
+        return st | {e}
+
+    def at_exit_iii(kind, st, facts):
+        if kind != "return":
+            return None
+        if (F("origin is self")[0], False) not in facts and not ({"arm", "clear"} & set(st)):
+            return "the origin scope leaves a delivery round without either re-arming the callback or clearing its handle"
+        if "ret" not in st:
+            return "the delivery round does not report whether a retry is needed"
+        return None
+
+    ctx.paths(rule, deliver, [("arm", "self._cancel_handle = $L.call_soon(self._deliver_cancellation, origin)"),
+                                 ("clear", "self._cancel_handle = None"), ("ret", f"return {SR}")], step_iii, frozenset(), at_exit_iii,
+              instance="(iii) every origin round ends re-armed or cleared")
+
+
+
 def check(ctx):
     cancel = ctx.fn("CancelScope.cancel", A)
     enter = ctx.fn("CancelScope.__enter__", A)
@@ -87,92 +180,7 @@ def check(ctx):
               step_b, (False, False, False), at_exit_b, instance="scope cancelled before entry delivers on entry")
 
     # ---- R03-c delivery loop ----------------------------------------------------------------------------------------------
-    rvs = [u(e["R"]) for s, e in ctx.sites(deliver, "return $R") if isinstance(e["R"], ast.Name)]
-    ctx.need("R03-c", deliver, "`return should_retry`", len(rvs), 1)
-    SR = rvs[0] if rvs else "should_retry"
-    tl =[n for n in own_walk(deliver.node) if isinstance(n, ast.For) and ast.unparse(n.iter) == "self._tasks" and isinstance(n.target, ast.Name)]
-    if ctx.need("R03-c", deliver, "`for task in self._tasks`", len(tl), 1):
-        t = tl[0].target.id
-        tl_ids = {id(tl[0])}
-        done_f = (F(f"{t}.done()")[0], False)
-        cur = ctx.sites(deliver, "$C = current_task()")
-        # (i) retry scheduled for every live member
-        def step_i(st, e, c):
-            if e == "iter":
-                fb = c.facts_before
-                if done_f in fb and (SR, True) not in fb:
-                    return Bad("a member task that is still running is passed over without `should_retry = True`: if it cannot be cancelled in this cycle the delivery dies down and the task stays blocked")
-            return st
-
-        ctx.paths("R03-c", deliver, [("iter", [lambda frag, node: node.kind == "for_iter" and id(node.node) in tl_ids])], step_i, 0,
-                  lambda k, s, f: None, instance="(i) every live member keeps the delivery alive")
-        # (iv) an eligible task is cancelled
-        calls = ctx.sites(deliver, f"{t}.cancel($*A)")
-        if ctx.need("R03-c", deliver, "`task.cancel(...)`", len(calls), 1):
-            ctx.require_at("R03-c", deliver, calls[0][0], [[f"not {t}.done()", f"not {t}._must_cancel", f"not {t} is current_task()"]],
-                           instance="(iv) only live, not-yet-cancelling, other tasks are cancelled")
-
-            def step_iv(st, e, c):
-                if e == "iter":
-                    fb = c.facts_before
-                    keys = {k: p for k, p in fb}
-                    elig = keys.get(f"{t}.done()") is False and keys.get(f"{t}._must_cancel") is False and keys.get(f"{t} is current_task()") is False \
-                        and (keys.get(f"{t} is self._host_task") is True or keys.get(f"_task_started({t})") is True) \
-                        and any((k.startswith("isinstance(") and k.endswith(", asyncio.Future)") and p is False) or (k.endswith(".done()") and k != f"{t}.done()" and p is False)
-                                for k, p in fb)
-                    if elig:
-                        return Bad("a task that is eligible for cancellation (started, not current, waiter not done) is not cancelled by the delivery loop")
-                    live = keys.get(f"{t}.done()") is False and keys.get(f"{t}._must_cancel") is False and keys.get(f"{t} is current_task()") is False
-                    if live:
-                        reason = keys.get(f"_task_started({t})") is False or any(
-                            k.endswith(".done()") and k != f"{t}.done()" and p is True for k, p in fb)
-                        if not reason:
-                            return Bad("a live member task (not done, not already cancelling, not the current task) is left un-cancelled although "
-                                       "neither `not _task_started(task)` nor `waiter already done` was established: started non-host members are never cancelled")
-                return st
-
-            ctx.paths("R03-c", deliver, [("iter", [lambda frag, node: node.kind == "for_iter" and id(node.node) in tl_ids])], step_iv, 0,
-                      lambda k, s, f: None, instance="(iv) every eligible member is cancelled")
-    # (ii) recursion result is OR-ed in, the recursive call is evaluated first
-    rec = [(s, e) for s, e in ctx.sites(deliver, "$S._deliver_cancellation($O)") if u(e["S"]) != "self"]
-    if ctx.need("R03-c", deliver, "recursive delivery into child scopes", len(rec), 1):
-        call, env = rec[0]
-        st = stmt_of(call)
-        s_ = u(env["S"])
-        ok = any(P(p).match(st) is not None for p in (f"{SR} = {s_}._deliver_cancellation($O) or {SR}",
-                                                      f"{SR} |= {s_}._deliver_cancellation($O)"))
-        if not ok and isinstance(st, ast.If):
-            ok = P(f"{s_}._deliver_cancellation($O)").match(st.test) is not None and any(P(f"{SR} = True").match(b) is not None for b in st.body)
-        ctx.ob("R03-c", deliver, "(ii) a child scope that needs a retry keeps the origin's delivery alive (call evaluated before the OR)", ok,
-               detail="" if ok else f"`{norm(st)}`: the recursive result is not OR-ed into should_retry with the call evaluated first "
-               "(`should_retry or scope._deliver...` would skip child scopes once any member needs a retry)", node=st, by=("call or should_retry",))
-        oo = u(env["O"])
-        ctx.ob("R03-c", deliver, "(ii) the recursion passes the same origin", oo == "origin", detail=f"recursive call passes `{oo}`", node=st, by=("origin",))
-    # (iii) re-arm with the same bound method and origin
-    arm = ctx.sites(deliver, "self._cancel_handle = $L.call_soon(self._deliver_cancellation, origin)")
-    clr = ctx.sites(deliver, "self._cancel_handle = None")
-    if ctx.need("R03-c", deliver, "(iii) re-arm `self._cancel_handle = loop.call_soon(self._deliver_cancellation, origin)`", len(arm), 1):
-        ctx.require_at("R03-c", deliver, arm[0][0], [["origin is self", SR]], instance="(iii) re-armed iff something is left to retry, by the origin only")
-    if ctx.need("R03-c", deliver, "(iii) `self._cancel_handle = None` when nothing is left", len(clr), 1):
-        ctx.require_at("R03-c", deliver, clr[0][0], [["origin is self", f"not {SR}"]], instance="(iii) handle cleared only when nothing is left to retry")
-
-    def step_iii(st, e, c):
-        if c.is_exc:
-            return st
-        return st | {e}
-
-    def at_exit_iii(kind, st, facts):
-        if kind != "return":
-            return None
-        if (F("origin is self")[0], False) not in facts and not ({"arm", "clear"} & set(st)):
-            return "the origin scope leaves a delivery round without either re-arming the callback or clearing its handle"
-        if "ret" not in st:
-            return "the delivery round does not report whether a retry is needed"
-        return None
-
-    ctx.paths("R03-c", deliver, [("arm", "self._cancel_handle = $L.call_soon(self._deliver_cancellation, origin)"),
-                                 ("clear", "self._cancel_handle = None"), ("ret", f"return {SR}")], step_iii, frozenset(), at_exit_iii,
-              instance="(iii) every origin round ends re-armed or cleared")
+    delivery_loop(ctx, "R03-c")
 
     # ---- R03-d restart on exit / un-shield ---------------------------------------------------------------------------------
     def step_d(st, e, c):
@@ -280,3 +288,10 @@ def check(ctx):
 
     # ---- R03-i joining a possibly-cancelled scope restarts delivery ---------------------------------------------------------------
     join_restarts(ctx, "R03-i", ("TaskGroup._spawn", "AsyncIOBackend.run_async_from_thread.task_wrapper"), 2)
+
+    # ---- R03-j cancellation by deadline: a deadline given to an already active scope is armed (shared with C06/R06-c)
+    from .c06 import deadline_setter_rearms
+    deadline_setter_rearms(ctx, "R03-j")
+    # ---- R03-k a caller queued for a worker-thread token is still cancellable (shared with C14/R14-b)
+    from .c14 import token_wait_interruptible
+    token_wait_interruptible(ctx, "R03-k")
